@@ -10,10 +10,17 @@ came from is current; a discrepancy is attributed to known finding D9 only
 when the model WITH the deviation predicts exactly the observed content and
 the model WITHOUT it predicts the live content.  Further parts: content
 fidelity over an adversarial value pool (yaml/json look-alikes, floats,
-unicode, multi-line; D10 by predictor), lock-step post-load histories of the
+unicode, multi-line; D10 by predictor), long texts (one model holding a run of
+1..3 spaces at every offset of texts shorter and longer than a line of the
+file, and random texts of 1..400 characters over small alphabets, as constants
+and as the text literals of formulas), lock-step post-load histories of the
 original and the loaded model (same process, fresh process, fresh thread;
 cycles on/off; yml/json/pkl), byte-identical re-save, save-load-save, and
-survival of the metadata.
+survival of the metadata.  Every part also runs on models which need a plugin
+module (harness/plugin_c03.py: VID(x) = x around formulas which are members
+of ranges and readers of ranges): the module is named when the model is
+compiled and when it is loaded, as Reload.tla says (the function table is the
+same on both sides of the trip).
 """
 import json
 import math
@@ -47,6 +54,12 @@ def plugins_of(plug):
     return PLUGINS if plug else None
 
 
+def brief(exc):
+    """an exception in one line: its type and the last line of its message"""
+    lines = str(exc).strip().splitlines()
+    return f'{type(exc).__name__}: {lines[-1][:200] if lines else ""}'
+
+
 def same(a, b):
     if isinstance(a, float) and isinstance(b, float) and math.isnan(a) and math.isnan(b):
         return True
@@ -57,11 +70,11 @@ def same(a, b):
 
 # ---------------------------------------------------------------- part A
 def protocol_job(arg):
-    text_ext, cycles, seed, max_leaves, plug = arg
+    text_ext, cycles, seed, max_leaves, plug_every = arg
     from pycel import ExcelCompiler
-    out = dict(part='protocol/plugin' if plug else 'protocol', ext=text_ext, cycles=bool(cycles),
+    out = dict(part='protocol', ext=text_ext, cycles=bool(cycles),
                tlc=[], violations=[], known=[], notes=[], cases=0, histories=0, loads=0,
-               stale_seen=0, sample=None)
+               stale_seen=0, plugin_histories=0, sample=None)
     preds = {}
     for dev in ('TRUE', 'FALSE'):
         d = tlc.new_scratch('pers')
@@ -94,11 +107,14 @@ def protocol_job(arg):
     out['leaves_total'] = len(leaves)
     leaves = leaves[:max_leaves]
     workdir = tlc.new_scratch('files')
-    cells = {'A1': 1, 'B1': '=A1+1', 'C1': '=SUM(A1:B1)', 'D1': '=C1&"x"'}
-    if plug:
-        # B1, a member of the range A1:B1, and D1 need the plugin module
-        cells.update(B1=PLUG.wrap(cells['B1']), D1=PLUG.wrap(cells['D1']))
+    cells0 = {'A1': 1, 'B1': '=A1+1', 'C1': '=SUM(A1:B1)', 'D1': '=C1&"x"'}
+    # the same workbook for a model with a plugin module: B1, a member of the
+    # range A1:B1, and D1 call a function of it
+    cells1 = dict(cells0, B1=PLUG.wrap(cells0['B1']), D1=PLUG.wrap(cells0['D1']))
     for hi, hist in enumerate(leaves):
+        plug = bool(plug_every) and hi % plug_every == plug_every - 1
+        cells = cells1 if plug else cells0
+        out['plugin_histories'] += plug
         base = os.path.join(workdir, f'h{hi}_model')
         m = xl.compile_wb(cells, cycles=cycles, plugins=plugins_of(plug))
         for c in 'BCD':
@@ -185,7 +201,7 @@ def protocol_job(arg):
                                     f'extra_data did not survive: {dict(loaded.extra_data or {})!r} vs '
                                     f'{dict(m.extra_data or {})!r}', case))
             except Exception as exc:          # noqa
-                out['violations'].append((f'{step} raised {type(exc).__name__}: {exc}', case))
+                out['violations'].append((f'{step} raised {brief(exc)}', case))
                 break
         if out['sample'] is None:
             out['sample'] = dict(history=hist, text_ext=text_ext)
@@ -241,7 +257,7 @@ def fidelity_job(arg):
                 out['known'].append(('D10', f'text {val!r} written with set_value is code after '
                                      f'reload ({ft}): {type(exc).__name__}', case))
             else:
-                out['violations'].append((f'value {val!r}: {type(exc).__name__}: {str(exc)[-200:]}', case))
+                out['violations'].append((f'value {val!r}, {ft}: {brief(exc)}', case))
             continue
         bad = [(a, w, g) for a, w, g in zip(addrs, want, got)
                if w[0] != g[0] or (w[0] == 'ok' and not (
@@ -350,8 +366,7 @@ def texts_job(arg):
     except tlc.MachineryFailure:
         raise
     except Exception as exc:              # noqa
-        out['violations'].append((f'model with {len(texts)} text cells, {ft}: '
-                                  f'{type(exc).__name__}: {str(exc)[-200:]}', head))
+        out['violations'].append((f'model with {len(texts)} text cells, {ft}: {brief(exc)}', head))
         return out
     out['cases'] = len(items)
     bad = sorted(((a, how, t, w, g) for (a, how, t), w, g in zip(items, want, got)
@@ -425,8 +440,7 @@ def lockstep_job(arg):
             m.to_file(base, file_types=(ft,))
         except Exception as exc:              # noqa
             out['cases'] += 1
-            out['violations'].append((f'to_file({ft}) raised {type(exc).__name__}: '
-                                      f'{str(exc)[-160:]}', case))
+            out['violations'].append((f'to_file({ft}) raised {brief(exc)}', case))
             if len(out['violations']) > 4:
                 break
             continue
@@ -525,8 +539,8 @@ def lockstep_job(arg):
                         f'metadata did not survive {ft}: extra_data={dict(l2.extra_data)!r} '
                         f'cycles={l2.cycles!r} filename={l2.filename!r}', case))
             except Exception as exc:          # noqa
-                out['violations'].append((f'save, load and save again ({ft}) raised '
-                                          f'{type(exc).__name__}: {str(exc)[-160:]}', case))
+                out['violations'].append((f'save, load and save again ({ft}) raised {brief(exc)}',
+                                          case))
         if len(out['violations']) > 4:
             break
     out['violations'] = out['violations'][:4]
@@ -621,7 +635,7 @@ def reload_job(arg):
                     self.m = ExcelCompiler.from_file(base + '.' + ft, plugins=plugins_of(plug))
                     return 'ok', None
                 except Exception as exc:      # noqa
-                    return 'exc', f'{type(exc).__name__}: {exc}'
+                    return 'exc', brief(exc)
             return super().do(act, variant)
 
     def on_step(model, s_, act, spec_ret, t, hist):
@@ -664,8 +678,8 @@ def run(tier, seed):
     v = Verdict(PID, tier, seed)
     cy = dict(iterations=50, tolerance=0.001)
     ml = 1500 if tier == 'quick' else 10 ** 9
-    jobs = [('protocol', ('yml', None, seed, ml, False)), ('protocol', ('json', cy, seed, ml, False)),
-            ('protocol', ('yml', None, seed, ml // 3, True))]
+    # every third history on a model compiled (and loaded) with a plugin module
+    jobs = [('protocol', ('yml', None, seed, ml, 3)), ('protocol', ('json', cy, seed, ml, 3))]
     for ft in ('yml', 'json', 'pkl'):
         jobs.append(('fidelity', (ft, None, seed, False)))
     jobs.append(('fidelity', ('yml', cy, seed, False)))
@@ -702,6 +716,15 @@ def run(tier, seed):
                     k += 1
     results = parallel.run_jobs(any_job, jobs)
     parts = {}
+    # violations are reported part by part in turn, so that the first ones listed
+    # show every kind of discrepancy of the run
+    queues = {}
+    for r in results:
+        queues.setdefault(r['part'].split('/')[0], []).extend(r['violations'])
+    while any(queues.values()):
+        for q in queues.values():
+            if q:
+                v.violation(*q.pop(0))
     for r in results:
         for t in r['tlc']:
             v.tlc_runs.append(t)
@@ -714,13 +737,13 @@ def run(tier, seed):
         if r['part'].split('/')[0] in ('protocol', 'reload'):
             v.traces += r['histories']
             v.extra['protocol_loads'] = v.extra.get('protocol_loads', 0) + r.get('loads', 0)
+            v.extra['protocol_plugin_histories'] = v.extra.get('protocol_plugin_histories', 0) + \
+                r.get('plugin_histories', 0)
             v.extra['stale_pickle_reads_seen'] = v.extra.get('stale_pickle_reads_seen', 0) + r.get('stale_seen', 0)
         else:
             v.traces += r['cases']
         for n in r['notes']:
             v.note(n)
-        for desc, case in r['violations']:
-            v.violation(desc, case)
         for k in r['known']:
             if len(k) == 3:
                 v.known_finding(k[0], k[1], k[2])
